@@ -91,7 +91,13 @@ def step (st : St) (op res : String) : St × List String :=
   | "pmsg" :: client :: _depth :: k :: rest =>
     match st.s, k.toNat? with
     | some s, some k =>
-      match parseIAPDs k rest, words res with
+      -- the last word says whether the reply survived the wire (harness/prefix.go, `wireRT6`)
+      let (resW, frt) : List String × List String := match (words res).getLast? with
+        | some "rt-ok" => ((words res).dropLast, [])
+        | some "rt-differs" | some "rt-unparsable" =>
+          ((words res).dropLast, [s!"FAIL C19 prefix: the reply does not serialise and parse back to the same IA_PDs: {res}"])
+        | _ => (words res, [])
+      match parseIAPDs k rest, resW with
       | some (iapds, []), t0 :: t1 :: out =>
         match t0.toInt?, t1.toInt? with
         | some t0, some t1 =>
@@ -119,6 +125,7 @@ def step (st : St) (op res : String) : St × List String :=
                   (if mon.2.c08 && canon then [] else [s!"FAIL C08 reply {res}"]) ++
                   (if mon.2.c09 then [] else [s!"FAIL C09 reply {res} ; held={(heldOf st.held (cl.getD [])).map (fun h => (addrHex h.pfx.base, h.pfx.len))}"])
                 else []
+              let fails := fails ++ (if st.wf then frt else [])
               -- choices: the blocks in the reply that the client did not hold, in order
               let known := (s.leasesOf (cl.getD [])).map (·.pfx)
               let fresh := ((blocksOf rs).filter (fun b => !(known.contains b))).eraseDups
